@@ -328,7 +328,7 @@ def twoNodesTwoEdges : St := applyAll St.empty [.createNode 0 0, .createNode 0 0
     `delete_edge(e)` names an id handed out BEFORE the concurrent phase (`e ≤ s0.ne`; the edge need
     not exist).  Outside: node deletion and the update of an edge being deleted (the two remaining
     witnesses below), and deleting an edge whose `create_edge` has not returned yet (the id can only
-    be guessed).  `quiescent_wf_partial` adds `update_node` and `update_edge`. -/
+    be guessed).  `quiescent_wf_partial` adds `update_node`, `add_label`, `remove_label` and `update_edge`. -/
 theorem adjacency_rmw_atomic (s0 : St) (h : Inv s0) (programs : List (List Op))
     (hadm : ∀ ops ∈ programs, ∀ op ∈ ops, op.adm s0.ne) : QuiescentWF s0 programs :=
   quiescentWF_of_adm s0 h programs hadm
@@ -388,7 +388,10 @@ theorem create_node_create_edge_race_witness :
 /-- `create_edge` writes the edge record FIRST and the list entries afterwards.  A `delete_edge(1)`
     that finds the record in between (guessed id, or discovered by `all_edges`) cleans lists that do
     not mention the edge yet and deletes the record; `create_edge` then adds the entries: both lists
-    mention an edge that does not exist. -/
+    mention an edge that does not exist.  In the code the creator takes the lock of its first list
+    right after the `store.put` of the record, with no yield point in between: the schedule needs a
+    preemption there, which the model (locks taken lazily) has and the deterministic scheduler of the
+    harness cannot produce — this witness is about the model and is not replayed on the real engine. -/
 theorem delete_edge_of_edge_in_creation_race_witness :
     ¬ QuiescentWF twoNodes [[e12], [.deleteEdge 1]] := by
   intro h
@@ -439,7 +442,8 @@ theorem delete_node_parallel_path_lost_removal_witness :
 
 /-- PARTIAL form of `QuiescentWF`: the largest set of operations for which it holds without a
     condition on footprints.  Any number of threads, each running any list of `create_edge`,
-    `delete_edge`, `update_node` and `update_edge` operations from any reachable store: for EVERY
+    `delete_edge`, `update_node`, `add_label`, `remove_label` and `update_edge` operations from any
+    reachable store: for EVERY
     interleaving the list locks allow, once all threads have finished the store is well-formed.
     Conditions (`Admissible`): a `delete_edge(e)` / `update_edge(e)` names an id handed out before the
     concurrent phase, and no `update_edge(e)` runs in a phase in which some thread has a
@@ -459,7 +463,8 @@ theorem quiescent_wf_partial (s0 : St) (h : Inv s0) (programs : List (List Op))
 /-- non-vacuity: updates of edge 1 and node 1 next to the deletion of edge 2 and new edges on the
     same hub -/
 example : QuiescentWF twoNodesTwoEdges
-    [[.updateEdge 1 9, .createEdge 1 2 false 0 0], [.deleteEdge 2, .updateNode 1 none 3], [.createEdge 2 1 true 1 1]] :=
+    [[.updateEdge 1 9, .createEdge 1 2 false 0 0], [.deleteEdge 2, .updateNode 1 none 3],
+     [.createEdge 2 1 true 1 1, .addLabel 1 5, .removeLabel 2 0]] :=
   quiescent_wf_partial _ (wf_preserved _ _ inv_empty).1 _ (by
     intro ops hops op hop
     simp at hops
@@ -470,7 +475,7 @@ example : QuiescentWF twoNodesTwoEdges
     · rcases hop with rfl | rfl
       · show 2 ≤ twoNodesTwoEdges.ne; decide
       · trivial
-    · subst hop; trivial)
+    · rcases hop with rfl | rfl | rfl <;> trivial)
 
 /-! ### concurrent: operation sets with pairwise disjoint footprints (any operations) -/
 
